@@ -12,7 +12,7 @@ Operations whose implementation is not modelled (dd.read, nc.vec, nc.seq, ct.par
 compared by outcome class only (the model answers `?`)."""
 import random, itertools, os, sys, importlib.util
 
-UNMODELLED = ("nc.vec", "nc.seq", "ct.parse", "dt.edit", "at.opts")        # dd.read: see compare()
+UNMODELLED = ("nc.vec", "nc.seq", "ct.parse", "dt.edit", "at.opts", "ap.vec")        # dd.read: see compare()
 
 
 def _load_tool(name):
@@ -397,6 +397,34 @@ def g_at(rng, tier):
     return "%s %s %s %s %d%s" % (rng.choice(["at.vars", "at.vars", "at.varsE"]), hx(c), hx(b), hx(e), len(m), "".join(" %s %s" % (hx(a), hx(v)) for a, v in sorted(m.items())))
 
 
+def doubling_chain(n, width=2, seed_text="x", reverse=False):
+    """acyclic definitions whose expansion doubles at every step: v00=x, v01=$(v00)$(v00), ... (2^n characters);
+    `reverse`: the keys sort the other way round, so that every entry is resolved before the one it refers to"""
+    key = (lambda i: "v%02d" % (99 - i)) if reverse else (lambda i: "v%02d" % i)
+    m = {key(0): seed_text}
+    for i in range(1, n + 1):
+        m[key(i)] = ("$(%s)" % key(i - 1)) * width
+    return m
+
+
+def vars_line(m, op="at.vars"):
+    return "%s %s %s %s %d%s" % (op, hx("$"), hx("("), hx(")"), len(m), "".join(" %s %s" % (hx(a), hx(v)) for a, v in sorted(m.items())))
+
+
+def g_chain(rng, tier):
+    """resolveVariables on doubling / tripling chains of 12-16 definitions (outputs of 4 KiB .. 64 KiB from inputs of
+    a few hundred bytes: the allocation is exponential in the number of definitions)"""
+    n = rng.choice([12, 13, 14, 15, 16]); w = 2
+    if rng.random() < 0.25:
+        n, w = rng.choice([8, 9, 10]), 3
+    if rng.random() < 0.3:
+        # resolved in the unfavourable order (every entry before the ones it refers to): w^n substitutions in the
+        # first entry — kept below the model's fuel of 400 rounds per entry
+        n, w = rng.choice([(5, 2), (6, 2), (7, 2), (3, 3), (4, 3)])          # 2^(n+1) - 2 resp. (3^(n+1) - 3) / 2 substitutions: at most 254
+        return vars_line(doubling_chain(n, w, rng.choice(["x", "", "ab"]), True), rng.choice(["at.vars", "at.varsE"]))
+    return vars_line(doubling_chain(n, w, rng.choice(["x", "", "ab"])), rng.choice(["at.vars", "at.varsE"]))
+
+
 def g_ft(rng, tier):
     k = rng.randrange(3)
     sep = rng.choice(["/", "/", "/", "\\", ".", "a"])
@@ -658,6 +686,32 @@ def g_opts(rng, tier):
     m = rng.choice([0, 1, 2, 3, 3])
     files = [text(i) for i in range(m)]
     return "at.opts %d%s %d%s" % (len(args), "".join(" " + hx(a) for a in args), m, "".join(" " + hx(f) for f in files))
+
+
+AP_INT = ["1", "5", "0", "12", "-3", "100", "2147483647", "2147483646", "-2147483648", "2000000000", "4294967296", "x", "", "1e3", "1.5", " 7"]
+AP_DBL = ["1", "2.5", "0", "-1", "10", "1e3", "1e16", "10000000000000100", "1e300", "-1e300", "inf", "nan", "x", "", "1e-300", "0.1"]
+
+
+def g_apvec(rng, tier):
+    """ApplicationTools::getVectorParameter<T> with the range operator: plain values and ranges a-b, bounds at the limits of T
+    (a range above 10^7 values is refused since the audit-round-2 repair; one that reaches the cap costs 10^7 rounds: rare)"""
+    ty = rng.choice("iud")
+    pool = AP_DBL if ty == "d" else AP_INT
+    sep, rop = rng.choice([(",", "-"), (",", ":"), (";", "-"), (" ", ":"), (",", ",")])
+    items = []
+    for _ in range(rng.choice([0, 1, 1, 2, 3, 5])):
+        small = rng.random() < 0.85
+        a = rng.choice(pool[:6] if small else pool)
+        if rng.random() < 0.5:
+            items.append(a)
+        else:
+            items.append(a + rop + rng.choice(pool[:6] if small else pool))
+    txt = sep.join(items)
+    r = rng.random()
+    if r < 0.3: txt = "(" + txt + ")"
+    elif r < 0.35: txt = "(" + txt
+    elif r < 0.4: txt = mutate(rng, txt, [sep, rop, "(", ")"], 120, n=1)
+    return "ap.vec %s %s %s %s" % (ty, hx(txt), hx(sep), hx(rop))
 
 
 def g_dd(rng, tier):
@@ -940,7 +994,7 @@ def fuzz_cases(seed, tier):
 def generate(seed, tier):
     rng = random.Random(seed)
     n = 50000 if tier == "thorough" else 20000
-    fams = [(g_tt, 5), (g_st, 4), (g_nst, 3), (g_kv, 3), (g_glob, 1), (g_at, 3), (g_ft, 1), (g_ic, 1), (g_dt, 2), (g_dd, 2), (g_vec, 1), (g_seq, 1), (g_ct, 1), (g_dte, 2), (g_opts, 1)]
+    fams = [(g_tt, 5), (g_st, 4), (g_nst, 3), (g_kv, 3), (g_glob, 1), (g_at, 3), (g_ft, 1), (g_ic, 1), (g_dt, 2), (g_dd, 2), (g_vec, 1), (g_seq, 1), (g_ct, 1), (g_dte, 2), (g_opts, 1), (g_apvec, 1)]
     tot = sum(w for _, w in fams)
     cases = []
     # the extra batches of check.py's directed search (seed * 1000 + k) do not repeat the fixed universes
@@ -955,6 +1009,16 @@ def generate(seed, tier):
         ops = [o for o in ops if not alone(o)]
         cases += chunk(f.__name__[2:], ops, 150)
         cases += [["case %s-single%d" % (f.__name__[2:], i), o] for i, o in enumerate(single)]
+    # doubling chains (audit round 2): a handful per run, each alone (their answers are tens of KiB)
+    crng = random.Random(seed * 7919 + 13)
+    for i in range(6):
+        cases.append(["case chain%d" % i, g_chain(crng, tier)])
+    for i, n in enumerate((12, 14)):
+        m = doubling_chain(n)
+        f = "\n".join("%s=%s" % kv for kv in sorted(m.items())) + "\n"
+        cases.append(["case chain-opts%d" % i, "at.opts 1 %s 1 %s" % (hx("param=p0"), hx(f))])
+    for a, b, ty in (("1", "2000000000", "i"), ("-2147483648", "2147483647", "i"), ("1e16", "10000000000000100", "d"), ("0", "10000000", "u"), ("0", "9999998", "i"), ("5", "1", "i")):
+        cases.append(["case apvec-limit-%s-%s" % (a, b), "ap.vec %s %s %s %s" % (ty, hx(a + ":" + b), hx(","), hx(":"))])
     # the extra batches of check.py's directed search (seed * 1000 + k) do not re-run the fuzzer
     if seed < 1000:
         cases += fuzz_cases(seed, tier)
@@ -965,6 +1029,8 @@ def compare(op_line, impl, model):
     o = op_line.split()[0]
     if o in UNMODELLED:
         return True
+    if o in ("at.vars", "at.varsE") and model.startswith("big"):
+        return True          # acyclic definitions with an exponentially large expansion: the model is not run (Drive/C16.lean)
     if o == "dd.read":
         # the text stage of the reader is modelled: when the model says it raises, the call must raise the
         # library's exception; when it passes (`?…`) the unmodelled constructors decide (value or exception)
